@@ -356,9 +356,12 @@ def run_check(prop, tier="quick", seed=0, replay=None):
                 for c, a, ls in zip(cases, impl_out, per_case):
                     outs = [next(it) for _ in ls]
                     if outs:           # cases without a model line are oracle/conformance only
-                        paired.append((c, a, " ".join(outs)))
+                        m = " ".join(outs)
+                        if hasattr(mod, "canon_model"):
+                            m = mod.canon_model(m)
+                        paired.append((c, a, m))
                 for c, a, b in paired:
-                    if b.startswith("unsupported"):
+                    if "unsupported" in b:
                         stats["model-unsupported"] = stats.get("model-unsupported", 0) + 1
                         continue
                     if a != b:
